@@ -34,16 +34,21 @@ func checkLicenseAndPipe[First any, Last any](
 	stdPipe func(ro.Observable[First]) ro.Observable[Last],
 	instrumentedPipe func(ro.Observable[First]) ro.Observable[Last],
 ) ro.Observable[Last] {
-	return ro.NewUnsafeObservableWithContext(func(subscriberCtx context.Context, destination ro.Observer[Last]) ro.Teardown {
-		var p func(ro.Observable[First]) ro.Observable[Last]
+	// The operators are applied once, when the pipeline is built: applying them at every
+	// subscription would give every subscriber its own copy of the chain, and an operator
+	// that keeps state per application (Share, ShareReplay) would share nothing.
+	// Only the choice between the two chains is made at subscription time.
+	plain := stdPipe(source)
+	instrumented := wrapPipeWithObservability(collector, instrumentedPipe)(source)
 
+	return ro.NewUnsafeObservableWithContext(func(subscriberCtx context.Context, destination ro.Observer[Last]) ro.Teardown {
+		chain := plain
 		if isPrometheusEnabled() {
-			p = wrapPipeWithObservability(collector, instrumentedPipe)
-		} else {
-			p = stdPipe
+			chain = instrumented
 		}
 
-		sub := p(source).SubscribeWithContext(subscriberCtx, destination)
+		sub := chain.SubscribeWithContext(subscriberCtx, destination)
+
 		return sub.Unsubscribe
 	})
 }
